@@ -351,6 +351,7 @@ fn main() {
         Some("adv") => adv::cmd_adv(&args[2..]),
         Some("advlist") => adv::cmd_advlist(),
         Some("advfuzz") => adv::cmd_advfuzz(&args[2..]),
+        Some("syn") => adv::cmd_syn(),
         #[cfg(feature = "utf16")]
         Some("utf16") => utf16::cmd_utf16(&args[2..]),
         #[cfg(feature = "pattern")]
